@@ -271,6 +271,7 @@ CHECKS["C17"] = dict(
     jobs=[dict(name="sock", pkg="./sock", go=GO, test="TestC17Sock", shards=(4, 8), checks=(15, 300), timeout=(600, 3000)),
           dict(name="bubble", pkg="./tun", go=GO126, test="TestC17B", shards=(2, 8), checks=(1500, 20000), timeout=(600, 3000)),
           dict(name="real", pkg="./tun", go=GO, test="TestC17R", shards=(4, 8), checks=(60, 1200), timeout=(600, 3000)),
+          dict(name="stream", pkg="./tun", go=GO, test="TestC17Stream", shards=(2, 8), checks=(12, 250), timeout=(600, 3000)),
           dict(name="router", pkg="./rtr", go=GO, test="TestC17Router", shards=(4, 8), checks=(100, 2000), timeout=(600, 3000))],
 )
 
@@ -329,7 +330,10 @@ CHECKS["C05"] = dict(
     level_note="Trusted: the reference gateway and network in harness/tun/refgw_test.go. The quantifier's exhaustive exploration of every reachable state for modulus 4 is model checking, which this technique family does not do: paths are sampled.",
     technique="rapid stateful generation of network fate streams against a reference gateway under testing/synctest virtual time; exactly-once / order invariants over the history",
     assumptions=_TUN_ASSUME + ["every Send call carries its own telegram (a retry after a failed Send is a new telegram)"],
-    jobs=[dict(name="bubble", pkg="./tun", go=GO126, test="TestC05B", shards=(4, 16), checks=(1500, 25000), timeout=(600, 3000))],
+    jobs=[dict(name="bubble", pkg="./tun", go=GO126, test="TestC05B", shards=(4, 16), checks=(1500, 25000), timeout=(600, 3000)),
+          # real scheduler, perfect link: a rule-following gateway streams 300..30000 telegrams, each the moment the
+          # previous one's acknowledgement is in its hands, at an application that alternates between reading and being busy
+          dict(name="stream", pkg="./tun", go=GO, test="TestC05Stream", shards=(2, 8), checks=(12, 250), timeout=(600, 3000))],
 )
 
 _SOCK_ASSUME = ["loopback UDP/TCP (and, for discovery, IPv4 multicast on the default interface) is available in the sandbox; a facility that is missing makes the dependent sub-oracle skip (recorded in the evidence), never fail",
@@ -432,6 +436,22 @@ RULE_ADDENDA = {
     "C19": "40 (thorough: 400) fresh child processes whose first Produce calls come from 16 goroutines at once; the slice "
            "ListSupportedTypes() returned is overwritten and the listing taken again; slices returned by Pack() are kept and must not change; numeric aliases (main-k).(sub+k*M) of every registered name are looked up.",
 }
+# round 10 of the seeded changes
+_R10 = {
+    "C04": " Half of the socket job's plans are UDP tunnels with traffic in both directions through one kernel socket (20..80 events out, up to 200 indications in): every acknowledgement the gateway receives is judged (channel, status, number of the telegram under way or the one before) and every datagram is one well-formed frame.",
+    "C05": " Job stream (real scheduler, perfect link): the gateway tunnels 300..3000 (thorough 30000) telegrams, each the moment it holds the previous acknowledgement (TCP: all at once), at readers that pause 0..1000 us (sleeping or spinning) after blocks of 1..257 telegrams, with 0..200 application Sends and heartbeats every 0.1..10 ms meanwhile; what is read must be 0,1,2,... and one acknowledgement per telegram.",
+    "C08": " Decode-after-decode pairs: for 11.001 every day 1..31 x month 1..12 of a year right after every valid date of that year (years 1990, 2000, 2023, 2024, 2089; thorough all 100), for 10.001 all ordered pairs of 160 field-boundary payloads, for every other fixed-length type all ordered pairs of 81 payloads; a third of the rapid cases decode 1..3 close relatives (one octet changed) first.",
+    "C11": " Three further layouts (no additional info, other info, same info) are decoded into the L_Data structure used for the previous frame and every field is compared with the bytes.",
+    "C13": " At idle the busy indication is followed by a frame the client ignores: once the serve loop has taken that, the indication has been dealt with; senders are released only then and nothing may leave before hand-over + min(wait, 50 ms) (no lock observation needed). A third of the idle plans with a pause >= 2 ms draw 1 <= wait < pause with a non-zero control field.",
+    "C14": " A twelfth of the plans start with 1000..8200 indications that nobody reads (1023/1024/1025, 2049, 4100, 8200 among the sizes). Every run without a Close requires that the open client has taken every frame handed to its socket within 5 s.",
+    "C15": " A third of the frames with a service-families block carry 126..300 families (beyond what the structure's length octet can say).",
+    "C16": " Slow-reader job, mode tcp-send-stalled: the TCP peer does not read for 1.1..2.6 s (thorough up to 11 s) while one goroutine sends 150..260 frames of 50..65 kB (7..17 MB, more than the connection buffers), then parses the stream strictly: whole frames of successful Sends, each once, in order, nothing else.",
+    "C17": " Job stream: as C05's (order and count of what is read under a gateway that streams on acknowledgement).",
+    "C19": " Every history decodes out of one receive buffer that is overwritten after each decode; snapshots own their memory.",
+    "C20": " A quarter of the matching responses carry a device name that fills all 30 octets, built by construction from a response that is one with the name cut to 29.",
+}
+for _k, _v in _R10.items():
+    RULE_ADDENDA[_k] = RULE_ADDENDA.get(_k, "") + _v
 for _k, _add in RULE_ADDENDA.items():
     if " Non-trivial =" in CHECKS[_k]["rule"]:
         CHECKS[_k]["rule"] = CHECKS[_k]["rule"].replace(" Non-trivial =", " " + _add + " Non-trivial =", 1)
